@@ -7,6 +7,7 @@ import (
 
 	"github.com/lyraproj/pcore/pcore"
 	"github.com/lyraproj/pcore/px"
+	"github.com/lyraproj/pcore/types"
 	"verifharness/lat"
 	"verifharness/lib"
 )
@@ -144,18 +145,26 @@ func build(s *lat.Spec) (t px.Type) {
 	return
 }
 
-// negativeSizeProbes: a size range may have negative bounds (the creators only require min <= max). The test
-// "max == 0: only the empty collection, element types do not matter" of Array/Hash/Tuple.IsAssignable then breaks
-// transitivity (a sub-range of [-1,0] can have max < 0), and String[-1] is a sized String that no longer accepts
-// what String accepts. Every violation carries the narrow tag of its open finding.
-func negativeSizeProbes(res *lib.Result) {
+// negativeSizeProbes: a size range may have negative bounds (the creators only require min <= max); the ordinary pool
+// has none. The test "only the empty collection is admitted: the element types do not matter" of Array / Hash / Tuple /
+// Iterable.IsAssignable used to be `max == 0` and broke transitivity below zero (a sub-range of [-1,0] can have max < 0;
+// finding trans-negative-collection-size, fixed: the test is `max <= 0`). This section exercises those lines:
+//   - the fixed chains that refuted transitivity (corpus), as ordinary direct checks;
+//   - a pool of collection types over the size ranges around and below zero: transitivity on ALL its triples, widening of
+//     either bound, and (M) Equals / IsAssignable of ALL its pairs inside the model fragment against ty_eqb / asg;
+//   - String[-1] is a sized String that does not accept what String accepts (open finding widen-negative-string-size).
+func negativeSizeProbes(cfg *lib.Config, res *lib.Result) {
 	I, S := lat.Int(0, 9), lat.A("String")
 	chains := [][3]*lat.Spec{
 		{lat.Arr(I, -1, 5), lat.Arr(S, -1, 0), lat.Arr(S, -1, -1)},
 		{lat.Hsh(S, I, -1, 5), lat.Hsh(I, S, -1, 0), lat.Hsh(I, S, -1, -1)},
 		{lat.TupSz(-1, 5, I), lat.Arr(S, -1, 0), lat.Arr(S, -1, -1)},
 		{lat.Arr(I, -2, 5), lat.TupSz(-2, 0, S), lat.TupSz(-2, -1, S)},
-		{lat.Coll(-1, 5), lat.Arr(S, -1, 0), lat.Arr(S, -1, -1)}, // holds: Collection compares sizes only
+		{lat.TupSz(-2, 5, I), lat.TupSz(-2, 0, S), lat.TupSz(-2, -1, S)},
+		{lat.W("Iterable", I), lat.Arr(S, -1, 0), lat.Arr(S, -1, -1)},
+		{lat.W("Iterable", lat.Tup(I, I)), lat.Hsh(S, S, -1, 0), lat.Hsh(S, S, -1, -1)},
+		{lat.W("Iterable", I), lat.TupSz(-1, 0, S), lat.TupSz(-1, -1, S)},
+		{lat.Coll(-1, 5), lat.Arr(S, -1, 0), lat.Arr(S, -1, -1)}, // Collection compares sizes only
 	}
 	for _, ch := range chains {
 		a, b, c := build(ch[0]), build(ch[1]), build(ch[2])
@@ -163,12 +172,149 @@ func negativeSizeProbes(res *lib.Result) {
 			continue
 		}
 		res.Evaluations++
-		res.Count("trans.negative-size-probe")
-		if asg(a, b) && asg(b, c) && !asg(a, c) {
-			res.Violate(lib.Violation{Clause: "transitive", What: fmt.Sprintf("%s accepts %s, which accepts %s, but the first does not accept the last", a, b, c),
-				Input: map[string]interface{}{"kind": "trans", "a": ch[0], "b": ch[1], "c": ch[2]}, Tags: []string{"trans-negative-collection-size"}})
+		res.Count("trans.negative-size-corpus")
+		if asg(a, b) && asg(b, c) {
+			res.Nontrivial("tneg/" + ch[0].String() + "/" + ch[1].String() + "/" + ch[2].String())
+			if !asg(a, c) {
+				res.Violate(lib.Violation{Clause: "transitive", What: fmt.Sprintf("%s accepts %s, which accepts %s, but the first does not accept the last", a, b, c),
+					Input: map[string]interface{}{"kind": "trans", "a": ch[0], "b": ch[1], "c": ch[2]}, Tags: []string{"trans:negative-size-corpus:" + ch[0].K + "<-" + ch[1].K + "<-" + ch[2].K}})
+			}
 		}
 	}
+
+	// ---- the pool over sizes around and below zero
+	ranges := [][2]int64{{-1, 5}, {-1, 0}, {-1, -1}, {-2, -1}, {-2, 0}, {0, 0}, {0, 5}}
+	U := lat.A("Undef")
+	var specs []*lat.Spec
+	for _, r := range ranges {
+		lo, hi := r[0], r[1]
+		specs = append(specs, lat.Arr(I, lo, hi), lat.Arr(S, lo, hi), lat.Arr(U, lo, hi),
+			lat.Hsh(S, I, lo, hi), lat.Hsh(I, S, lo, hi),
+			lat.TupSz(lo, hi), lat.TupSz(lo, hi, I), lat.TupSz(lo, hi, S), lat.TupSz(lo, hi, I, S),
+			lat.Coll(lo, hi))
+	}
+	specs = append(specs,
+		lat.W("Iterable", I), lat.W("Iterable", S), lat.W("Iterable", lat.Tup(S, I)), lat.W("Iterable", lat.Tup(I, S)),
+		lat.Struct(), lat.Struct(lat.Member{Name: "a", Kind: 1, T: I}),
+		lat.Var(lat.Arr(S, -1, -1), lat.Arr(I, -1, 0)), lat.Var(lat.Hsh(I, S, -2, -1), lat.TupSz(-1, -1, S)),
+		lat.W("Optional", lat.Arr(S, -1, -1)), lat.W("NotUndef", lat.TupSz(-2, -1, I)),
+		lat.W("Type", lat.Arr(I, -1, 5)), lat.W("Type", lat.Arr(S, -1, 0)), lat.W("Type", lat.Arr(S, -1, -1)),
+		lat.Arr(lat.Arr(I, -1, 5), -1, 5), lat.Arr(lat.Arr(S, -1, 0), 0, 5), lat.Arr(lat.Arr(S, -1, -1), 0, 5),
+		lat.A("Data"), lat.A("RichData"))
+	type ent struct {
+		s    *lat.Spec
+		l, r px.Type
+		d    *types.VerifTy
+		inM  bool
+	}
+	var pool []ent
+	for _, sp := range specs {
+		l, r := build(sp), build(sp)
+		if l == nil || r == nil {
+			continue
+		}
+		d := types.VerifDecodeType(l)
+		pool = append(pool, ent{sp, l, r, d, lat.InModel(d)})
+	}
+	n := len(pool)
+	res.Extra["negative-size-types"] = n
+	m := make([][]bool, n)
+	for a := 0; a < n; a++ {
+		m[a] = make([]bool, n)
+		for b := 0; b < n; b++ {
+			r, crash := lat.Guarded(func() bool { return px.IsAssignable(pool[a].l, pool[b].r) })
+			m[a][b] = r
+			res.Evaluations++
+			if crash != "" {
+				res.Violate(lib.Violation{Clause: "crash", What: fmt.Sprintf("IsAssignable(%s, %s): %s", pool[a].l, pool[b].r, crash),
+					Input: map[string]interface{}{"kind": "eq", "a": pool[a].s, "b": pool[b].s}, Tags: []string{"crash-asg"}})
+			}
+		}
+		if !m[a][a] {
+			res.Violate(lib.Violation{Clause: "reflexive-copy", What: fmt.Sprintf("%s does not accept a separately constructed copy of itself", pool[a].l),
+				Input: map[string]interface{}{"kind": "refl", "a": pool[a].s}, Tags: []string{"refl:negative-size:" + pool[a].s.K}})
+		}
+	}
+	has := func(i int, kind string) bool { return lat.Contains(pool[i].d, kind) || lat.SpecContains(pool[i].s, kind) }
+	for a := 0; a < n; a++ {
+		for b := 0; b < n; b++ {
+			if !m[a][b] || a == b {
+				continue
+			}
+			for c := 0; c < n; c++ {
+				res.Evaluations++
+				if !m[b][c] || b == c {
+					continue
+				}
+				res.Count("trans.negative-size.premise-holds")
+				res.Nontrivial(fmt.Sprintf("tn/%d/%d/%d", a, b, c))
+				if !m[a][c] {
+					tags := []string{"trans:negative-size:" + pool[a].s.K + "<-" + pool[b].s.K + "<-" + pool[c].s.K}
+					if (has(a, "Struct") && has(b, "Hash")) || (has(b, "Struct") && has(c, "Hash")) {
+						tags = append(tags, "trans-through-struct-accepts-hash-rule")
+					}
+					if key := "violations.transitive." + strings.Join(tags, ","); res.Distribution[key] >= 3 {
+						res.Distribution[key]++
+						continue
+					}
+					res.Violate(lib.Violation{Clause: "transitive", What: fmt.Sprintf("%s accepts %s, which accepts %s, but the first does not accept the last", pool[a].l, pool[b].r, pool[c].r),
+						Input: map[string]interface{}{"kind": "trans", "a": pool[a].s, "b": pool[b].s, "c": pool[c].s}, Tags: tags})
+				}
+			}
+		}
+	}
+	// widening either bound of a size (also further below zero) never turns acceptance into rejection
+	for a := 0; a < n; a++ {
+		sp := pool[a].s
+		switch sp.K {
+		case "Array", "Hash", "Collection", "Tuple":
+		default:
+			continue
+		}
+		lo, hi := *sp, *sp
+		lo.Lo--
+		hi.Hi++
+		for _, w := range []*lat.Spec{&lo, &hi} {
+			wt := build(w)
+			if wt == nil {
+				continue
+			}
+			for b := 0; b < n; b++ {
+				if !m[a][b] {
+					continue
+				}
+				res.Evaluations++
+				res.Count("widen.negative-size.premise-holds")
+				if !asg(wt, pool[b].r) {
+					res.Violate(lib.Violation{Clause: "widen", What: fmt.Sprintf("%s accepts %s but the wider %s does not", pool[a].l, pool[b].r, wt),
+						Input: map[string]interface{}{"kind": "widen", "a": sp, "w": w, "b": pool[b].s}, Tags: []string{"widen:negative-size:" + sp.K + "<-" + pool[b].s.K}})
+				}
+			}
+		}
+	}
+	// M: every pair of the pool inside the model fragment
+	cf := &lib.CasesFile{Imports: []string{"Model.Base", "Model.Ty", "Model.Lattice", "Model.TyEq", "Corr.CorrC01", "Corr.CorrC03"}, Typ: "ty * ty * bool * bool",
+		Obligations: map[string]string{"eq_model": "eq_mismatches cases", "asg_model": "asg2_mismatches orc cases"}}
+	pats, strs := map[string]bool{}, map[string]bool{}
+	for a := 0; a < n; a++ {
+		for b := 0; b < n; b++ {
+			if !pool[a].inM || !pool[b].inM {
+				continue
+			}
+			e, _ := lat.Guarded(func() bool { return pool[a].l.Equals(pool[b].r, nil) })
+			if e && (!m[a][b] || !m[b][a]) {
+				res.Violate(lib.Violation{Clause: "equal-accept", What: fmt.Sprintf("%s equals %s but they do not accept each other", pool[a].l, pool[b].r),
+					Input: map[string]interface{}{"kind": "eq", "a": pool[a].s, "b": pool[b].s}, Tags: []string{"eq:negative-size:" + pool[a].s.K}})
+			}
+			lat.TyStrings(pool[a].d, pats, strs)
+			lat.TyStrings(pool[b].d, pats, strs)
+			cf.Add(fmt.Sprintf("(%s, %s, %s, %s)", lat.GTy(pool[a].d), lat.GTy(pool[b].d), lib.GBool(e), lib.GBool(m[a][b])),
+				map[string]interface{}{"kind": "eq", "a": pool[a].s, "b": pool[b].s})
+		}
+	}
+	cf.Prelude = lat.Oracle(pats, strs)
+	res.CorrFiles = append(res.CorrFiles, cf.WriteTo(cfg.Out, "cases_negsize"))
+
 	w := lat.StrSz(-1, lat.Max)
 	for _, bs := range []*lat.Spec{S, lat.Pat("a"), lat.Enum(false)} {
 		a, wt, b := build(S), build(w), build(bs)
@@ -255,6 +401,11 @@ func run(c px.Context, cfg *lib.Config, res *lib.Result) {
 			}
 		}
 	}
+	// ---- sizes with a negative bound: they parse (Array[String,-1,-1]) and the pool has none: fixed chains and a
+	// small pool of their own (direct checks and model tie; finding trans-negative-collection-size is fixed,
+	// widen-negative-string-size is open). Before the all-triples search: the list of recorded violations is capped,
+	// and the by-specification finding alone can fill it
+	negativeSizeProbes(cfg, res)
 	// ---- transitivity over ALL triples
 	accepts := make([][]int, n) // accepts[b] = all c with b >= c
 	for b := 0; b < n; b++ {
@@ -303,9 +454,6 @@ func run(c px.Context, cfg *lib.Config, res *lib.Result) {
 			res.Evaluations += n - len(accepts[b])
 		}
 	}
-	// ---- sizes with a negative bound: they parse (Array[String,-1,-1]) and the pool has none, so a few fixed
-	// chains probe that input class directly (open findings trans-negative-collection-size, widen-negative-string-size)
-	negativeSizeProbes(res)
 	// ---- Any is top, Variant member, Optional
 	anyT := build(lat.A("Any"))
 	undefT := build(lat.A("Undef"))
